@@ -216,6 +216,16 @@ func (x *isoExec) Exec(a []string) string {
 	if len(a) == 3 && a[0] == "racerun" {
 		return x.race.Exec([]string{"run", a[1], a[2]})
 	}
+	if len(a) == 3 && a[0] == "concw" {
+		// concurrent write transactions on the wallet database driver: writers are serialised, every commit lands whole
+		// (eng_kv.go kvConc; seed C17-4: Commit released the writer lock before writing the shared batch)
+		w, e1 := strconv.Atoi(a[1])
+		n, e2 := strconv.Atoi(a[2])
+		if e1 != nil || e2 != nil || w < 1 || w > 8 || n < 1 || n > 2000 {
+			return "bad-op"
+		}
+		return kvConc(w, n)
+	}
 	e := x.env()
 	if len(a) == 0 {
 		return "bad-op"
@@ -684,6 +694,10 @@ func (x *isoExec) sweep(blks []string, only []int, q []string) string {
 
 func genIso(g *Gen) {
 	genRaceOps(g, "racerun")
+	for i := g.Scale(4, 40); i > 0; i-- {
+		g.Reset()
+		g.Op("concurrent-writers", "concw %d %d", 2+g.Rng.Intn(3), g.Scale(150, 600)+g.Rng.Intn(50))
+	}
 	nHist := g.Scale(30, 280)
 	for h := 0; h < nHist; h++ {
 		l := newLedGen(g, "iso")
